@@ -104,8 +104,8 @@ original names in `@PythonName("…")` between quotes (`stringBodySafe`); defaul
 as text (string and float defaults) verbatim (hypothesis: the text itself is balanced); docstring
 texts inside `/** … */` (`commentBodySafe`: no `*/`). -/
 
+/-- literal values need no condition any more: string values are escaped (repair d913d69) -/
 def litBal : Lit → Bool
-  | .str s => stringBodySafe s.toList
   | _ => true
 
 mutual
